@@ -7,5 +7,5 @@ if [ -n "$(git status --porcelain)" ]; then echo "/repo not clean"; exit 2; fi
 git apply "$p" || { echo "patch does not apply to /repo"; exit 1; }
 sav=$(mktemp -d); cp -a /verif/evidence/. "$sav"/
 for id in "$@"; do (cd /verif && ./check $id 2>&1 | grep -E 'VIOLATION|KNOWN|violations;' | cut -c1-260); done
-git checkout -- .
+git checkout -- . ; git clean -fdq
 cp -a "$sav"/. /verif/evidence/; rm -rf "$sav"
